@@ -128,3 +128,104 @@ R.contract(
     ],
     raises="none",
 )
+
+# ---------------------------------------------------------------------------------------------- plan / op types
+from contracts import c03_t4  # noqa: F401,E402  (declares the ProposedDelta record used by Plan.deltas)
+
+# the ops of a plan are instances of three frozen dataclasses living in one list: a tagged union (pyvc Registry.union)
+R.union("Op",
+        {"SpeakOp": ["kind", "intent", "topic_labels", "max_tokens"],
+         "EditGraphOp": ["kind", "edits", "cap"],
+         "RequestRetrieveOp": ["kind", "query", "owner", "k", "tier_pref", "hints"]},
+        fields={"kind": "str", "intent": "str", "topic_labels": "List[str]", "max_tokens": "int",
+                "edits": "List[Dyn]", "cap": "int",
+                "query": "Dyn", "owner": "str", "k": "int", "tier_pref": "Optional[str]", "hints": "Dyn"})
+R.objtype("Plan", {"version": "str", "reflection": "bool", "ops": "List[Op]", "deltas": "List[ProposedDelta]",
+                   "request_retrieve": "Dyn"}, cls=("clematis/engine/types.py", "Plan"))
+R.dictrec("Thresholds", {"tau_high": "float", "tau_low": "float", "eps_edit": "float"})
+
+# ---------------------------------------------------------------------------------------------- rule based planner
+# `bundle` ranges over every JSON-like value (Dyn).  Whatever the bundle looks like, *if* the planner returns, the
+# clauses hold; wrongly shaped bundles (e.g. bundle['cfg'] not a dict) make it raise, which the first group of
+# contracts allows (raises Exception).  Purity: a Dyn input is an immutable term; any in-place mutation reached
+# through it is the failed obligation `<fn>/frame:dyn-value-not-mutated`.
+R.contract(
+    POL + "_policy_thresholds", "C13",
+    types={"bundle": "Dyn"},
+    returns="Thresholds",
+    ensures=[("thresholds-from-cfg-or-defaults",
+              "result['tau_high'] == b_tau_high(bundle) and result['tau_low'] == b_tau_low(bundle) and "
+              "result['eps_edit'] == b_eps_edit(bundle)")],
+    raises=["Exception"],
+)
+
+R.contract(
+    POL + "_topic_labels_from_bundle", "C13",
+    types={"bundle": "Dyn", "cap": "int"},
+    returns="List[str]",
+    strict_comps=True,
+    ensures=[
+        ("capped", "len(result) <= max(cap, 0)"),
+        ("sorted-deduplicated", "forall2(i, j, 0 <= i and i < j and j < len(result), result[i] < result[j])"),
+    ],
+    raises=["Exception"],
+)
+
+EDIT_SHAPE = ("is_dict(%(x)s) and len(as_dict(%(x)s)) == 2 and 'op' in as_dict(%(x)s) and as_dict(%(x)s)['op'] == 'upsert_node' "
+              "and 'id' in as_dict(%(x)s) and is_str(as_dict(%(x)s)['id'])")
+R.contract(
+    POL + "_edit_nodes_from_bundle", "C13",
+    types={"bundle": "Dyn", "eps_edit": "float", "cap_nodes": "int"},
+    returns="List[Dyn]",
+    ensures=[
+        ("capped", "len(result) <= max(cap_nodes, 0)"),
+        ("upsert-node-edits", "forall(i, 0 <= i < len(result), " + EDIT_SHAPE % {"x": "result[i]"} + ")"),
+        ("sorted-by-id", "forall2(i, j, 0 <= i and i < j and j < len(result), "
+                         "as_str(as_dict(result[i])['id']) <= as_str(as_dict(result[j])['id']))"),
+    ],
+    raises=["Exception"],
+    loops={0: {"inv": ["forall(j, 0 <= j < len(selected), is_dict(selected[j]) and len(as_dict(selected[j])) == 1 and "
+                       "'id' in as_dict(selected[j]) and is_str(as_dict(selected[j])['id']))"]}},
+    locals={"selected": "List[Dyn]"},
+)
+
+S_MAX, T_HI, T_LO = "b_s_max(bundle)", "b_tau_high(bundle)", "b_tau_low(bundle)"
+OPS = "result.ops"
+DELIBERATE_ENSURES = [
+    ("ops-within-cap", "len(" + OPS + ") <= max(min(b_base_ops(bundle), b_slice_cap(bundle)), 0)"),
+    ("speak-first", "implies(len(" + OPS + ") > 0, " + OPS + "[0].kind == 'Speak' and " + OPS + "[0]._cls == 'SpeakOp')"),
+    ("intent-follows-thresholds",
+     "implies(len(" + OPS + ") > 0, " + OPS + "[0].intent == intent_for(" + S_MAX + ", " + T_HI + ", " + T_LO + ", "
+     "len(" + OPS + "[0].topic_labels) > 0))"),
+    ("speak-labels-capped-sorted",
+     "implies(len(" + OPS + ") > 0, len(" + OPS + "[0].topic_labels) <= 5 and forall2(i, j, 0 <= i and i < j and "
+     "j < len(" + OPS + "[0].topic_labels), " + OPS + "[0].topic_labels[i] < " + OPS + "[0].topic_labels[j]))"),
+    ("retrieve-only-below-low-threshold",
+     "forall(i, 0 <= i < len(" + OPS + "), implies(" + OPS + "[i].kind == 'RequestRetrieve' or " + OPS + "[i]._cls == 'RequestRetrieveOp', "
+     + S_MAX + " < " + T_LO + "))"),
+    ("edit-only-at-or-above-low-threshold",
+     "forall(i, 0 <= i < len(" + OPS + "), implies(" + OPS + "[i].kind == 'EditGraph' or " + OPS + "[i]._cls == 'EditGraphOp', "
+     + S_MAX + " >= " + T_LO + "))"),
+    ("only-speak-after-first", "len(" + OPS + ") <= 2 and forall(i, 1 <= i < len(" + OPS + "), " + OPS + "[i].kind != 'Speak')"),
+    ("kind-matches-class",
+     "forall(i, 0 <= i < len(" + OPS + "), (" + OPS + "[i]._cls == 'SpeakOp') == (" + OPS + "[i].kind == 'Speak') and "
+     "(" + OPS + "[i]._cls == 'EditGraphOp') == (" + OPS + "[i].kind == 'EditGraph') and "
+     "(" + OPS + "[i]._cls == 'RequestRetrieveOp') == (" + OPS + "[i].kind == 'RequestRetrieve'))"),
+    ("edit-cap-within-four-per-remaining-op",
+     "forall(i, 0 <= i < len(" + OPS + "), implies(" + OPS + "[i].kind == 'EditGraph', "
+     + OPS + "[i].cap == len(" + OPS + "[i].edits) and 1 <= " + OPS + "[i].cap and "
+     + OPS + "[i].cap <= 4 * (b_caps_ops(bundle) - 1)))"),
+    ("retrieve-request-normalised",
+     "forall(i, 0 <= i < len(" + OPS + "), implies(" + OPS + "[i].kind == 'RequestRetrieve', " + OPS + "[i].k >= 1 and "
+     "(" + OPS + "[i].owner == 'agent' or " + OPS + "[i].owner == 'world' or " + OPS + "[i].owner == 'any')))"),
+    ("plan-header", "result.version == 't3-plan-v1' and result.reflection == False and is_null(result.request_retrieve) "
+                    "and len(result.deltas) == 0"),
+    ("pure-bundle-unchanged", "dyn_same(bundle, old(bundle))"),
+]
+R.contract(
+    POL + "deliberate", "C13",
+    types={"bundle": "Dyn"},
+    ensures=DELIBERATE_ENSURES,
+    raises=["Exception"],
+    locals={"ops": "List[Op]"},
+)
